@@ -48,7 +48,10 @@ type AppNode struct {
 	Rd    *raft.Ready
 	// async storage threads
 	AppendQ []*pb.Message
-	ApplyQ  []*pb.Message
+	// LocalQ: acknowledgements of the append thread addressed to the node itself that have not been
+	// stepped yet (they travel back to the raft loop and may be overtaken by other input)
+	LocalQ []*pb.Message
+	ApplyQ []*pb.Message
 
 	// fsync modelling: writes the contract does not require to be synced
 	// (Ready.MustSync == false; MsgStorageAppend without responses) may be
@@ -243,7 +246,7 @@ func (c *Cluster) emit(ev *Event, n *AppNode) {
 	} else {
 		ev.N = jNode(nil)
 		ev.D = JDisk{Snap: jSnap(nil), Ents: []JEntry{}}
-		ev.P = JApp{Phase: "idle", AppendQ: []JMsg{}, ApplyQ: []JMsg{}, AppConf: jConf(nil)}
+		ev.P = JApp{Phase: "idle", AppendQ: []JMsg{}, ApplyQ: []JMsg{}, LocalQ: []JMsg{}, AppConf: jConf(nil)}
 	}
 	if ev.Ret == "" {
 		ev.Ret = "ok"
@@ -338,7 +341,7 @@ func (c *Cluster) count(ev *Event) {
 }
 
 func (c *Cluster) jApp(n *AppNode) JApp {
-	a := JApp{Phase: n.Phase, AppendQ: jMsgs(n.AppendQ), ApplyQ: jMsgs(n.ApplyQ),
+	a := JApp{Phase: n.Phase, AppendQ: jMsgs(n.AppendQ), ApplyQ: jMsgs(n.ApplyQ), LocalQ: jMsgs(n.LocalQ),
 		AppliedDurable: n.AppliedDurable, Inc: n.Inc}
 	idx, cs := n.confAsOf(n.AppliedDurable)
 	a.LastConfIdx = idx
@@ -393,6 +396,7 @@ func (n *AppNode) crashVolatile() {
 	n.Phase = "idle"
 	n.AppendQ = nil
 	n.ApplyQ = nil
+	n.LocalQ = nil
 }
 
 // pinRTO is kept as the single place where the harness could adjust the
@@ -582,6 +586,8 @@ func (c *Cluster) Do(s Step) bool {
 		return c.doSyncStep(s)
 	case "AppendThread":
 		return c.doAppendThread(s, 99)
+	case "LocalResp":
+		return c.doLocalResp(s)
 	case "CrashInAppend":
 		return c.doAppendThread(s, int(s.K))
 	case "ApplyThread":
@@ -1059,10 +1065,18 @@ func (c *Cluster) doAppendThread(s Step, stages int) bool {
 			n.unsynced = true
 		}
 		var out []*pb.Message
+		// the acknowledgements to the node itself are stepped at once, or (keep) travel back to the
+		// raft loop in order and are stepped by later LocalResp actions
+		deferred := s.Keep || len(n.LocalQ) > 0
+		ev.A.Keep = deferred
 		for _, r := range m.GetResponses() {
 			if r.GetTo() == n.ID {
-				ev.A.Stepped = append(ev.A.Stepped, jMsg(r))
 				rr := proto.Clone(r).(*pb.Message)
+				if deferred {
+					n.LocalQ = append(n.LocalQ, rr)
+					continue
+				}
+				ev.A.Stepped = append(ev.A.Stepped, jMsg(r))
 				if p = call(func() { _ = n.RN.Step(rr) }); p != "" {
 					break
 				}
@@ -1074,6 +1088,23 @@ func (c *Cluster) doAppendThread(s Step, stages int) bool {
 			ev.A.Msgs = c.toNet(out)
 		}
 	}
+	c.record(s)
+	c.notePanic(ev, n, p)
+	c.pinRTO(n)
+	c.emit(ev, n)
+	return true
+}
+
+func (c *Cluster) doLocalResp(s Step) bool {
+	n := c.up(s.Node)
+	if n == nil || len(n.LocalQ) == 0 {
+		return false
+	}
+	m := n.LocalQ[0]
+	n.LocalQ = n.LocalQ[1:]
+	jm := jMsg(m)
+	ev := &Event{Act: "LocalResp", A: JArgs{Msg: &jm, Stepped: []JMsg{jm}}}
+	p := call(func() { _ = n.RN.Step(m) })
 	c.record(s)
 	c.notePanic(ev, n, p)
 	c.pinRTO(n)
